@@ -7,7 +7,7 @@ package strptime
 // literal suffixes, %% and adjacent conversions.  Assertions: the engine's implicit ones (slice
 // and index bounds, nil) on every path; acceptance/rejection is not asserted here.
 
-//verif:opts unwind=400 maxsteps=400000 maxpaths=100000 cap=5000 samples=2
+//verif:opts unwind=400 maxsteps=400000 maxpaths=100000 cap=5000 samples=2 tier=thorough
 func VerifC16_strptime_bounds() {
 	formats := []string{"xyz%Y", "%Y%%", "%H:%M", "ab%Hcd", "%m%d", "%y%%%m", "%Y", "%%%Y", "%Y-%m", "%d/%m", "%s", "%j", "%Y."}
 	nf, n := 6, 4
